@@ -46,6 +46,17 @@ def run(ck, tier):
     ck.require(len(cases) >= n // 4, "too few corrupted cases: %d" % len(cases))
     res = starklib.run_pipeline(binary, "c02", cases)
     stats = judge(ck, "corrupt", cases, res)
+    # fixed family: cells only an assertion constrains, over assertion layouts sharing first steps / strides
+    fixed = starklib.generate(ck, "FixedStarkCorrupt.cfg", "fixed-family", tag="FIXED")
+    ck.require(len(fixed) >= 100, "fixed corruption family too small: %d" % len(fixed))
+    if not thorough:
+        ck.rng.shuffle(fixed)
+        free = [c for c in fixed if c["corrupt"]["row"] > 16 - c["desc"]["exemptions"]]
+        rest = [c for c in fixed if c not in free]
+        fixed = free + rest[:60]
+    res2 = starklib.run_pipeline(binary, "c02-fixed", fixed)
+    judge(ck, "fixed-family", fixed, res2)
+    ck.sample(starklib.shrink(fixed[0]))
     kinds = {c["corrupt"]["kind"] for c in cases}
     ck.require({"cell", "row", "pub"} <= kinds, "corruption kinds missing: %s" % kinds)
     nrej = sum(1 for c in cases if c["expect"] == "reject")
